@@ -38,14 +38,16 @@ Record ref := mkRef {
   r_path : list string;     (* enclosing messages, outermost first *)
   r_name : string }.
 
-Inductive tyx := TBase (b : base) | TRef (r : ref) | TArr (e : tyx) (cap : nat) (ext : bool).
+(* capacities and enum values are binary numbers: they are never inspected by the model and must
+   not be expanded to unary [nat] during evaluation *)
+Inductive tyx := TBase (b : base) | TRef (r : ref) | TArr (e : tyx) (cap : N) (ext : bool).
 
 Record field := mkField { fl_name : string; fl_num : nat; fl_ty : tyx }.
 
 Inductive def :=
 | DConst (n : string) (v : cval)
 | DAlias (n : string) (t : tyx)
-| DEnum (n : string) (w : nat) (ms : list (string * nat))
+| DEnum (n : string) (w : nat) (ms : list (string * N))
 | DMsg (n : string) (ext : bool) (nested : list def) (fs : list field).
 
 Record opts := mkOpts { o_cprefix : string; o_calign : Z; o_pymod : string; o_gopkg : string }.
@@ -192,7 +194,7 @@ Definition fdef_is (k : rk) (pth : list string) (n : string) (fd : fdef) : bool 
   end.
 Definition lookup_ref (r : ref) : option fdef :=
   find (fdef_is (r_k r) (r_path r) (r_name r)) (flat_file (getf s (r_file r))).
-Definition enum_members (r : ref) : option (list (string * nat)) :=
+Definition enum_members (r : ref) : option (list (string * N)) :=
   match lookup_ref r with
   | Some (mkF _ (DEnum _ _ ms)) => Some ms
   | _ => None
